@@ -417,7 +417,12 @@ func genHistory(t *rapid.T, level string, maxSteps int, scales []int) Case {
 		id := open[len(open)-1]
 		if connCfg[id] == active {
 			if a, b, ok := genPendingPair(t, connCfg[id], scale, true); ok {
-				c.Steps = append(c.Steps, Step{Op: "resp", Conn: id, R: &a}, Step{Op: "tunnel", Conn: id, R: &Resp{Body: b.Body, Seed: b.Seed}})
+				// keep the pending offsets clear of the proxy's short answer to CONNECT: an action
+				// firing inside it leaves a half-answered CONNECT that only a timeout can tell
+				// (same defect as a cut tunnel, twelve seconds dearer)
+				if s := buildModel(*connCfg[id], 0).byPat(a.Pat); s != nil && len(s.acts) > 0 && s.acts[0].at-int64(a.Body) > 256 {
+					c.Steps = append(c.Steps, Step{Op: "resp", Conn: id, R: &a}, Step{Op: "tunnel", Conn: id, R: &Resp{Body: b.Body, Seed: b.Seed}})
+				}
 			}
 		}
 	case ending <= 2 && len(open) > 0:
